@@ -36,6 +36,30 @@ struct NeLayout {
     template <class F> friend constexpr bool operator==(const mapping& a, const mapping<F>& b) { return a.inner == b.inner; }
   };
 };
+// a conforming user layout whose mapping has its OWN idea of size_type (the layout mapping requirements fix index_type and rank_type only)
+struct SzLayout {
+  template <class E> struct mapping {
+    using extents_type = E; using index_type = typename E::index_type; using size_type = std::size_t; using rank_type = typename E::rank_type; using layout_type = SzLayout;
+    md::layout_right::mapping<E> inner;
+    constexpr mapping() noexcept = default;
+    constexpr mapping(const E& e) noexcept : inner(e) {}
+    constexpr const E& extents() const noexcept { return inner.extents(); }
+    constexpr index_type required_span_size() const noexcept { return inner.required_span_size(); }
+    template <class... I> constexpr index_type operator()(I... i) const noexcept { return inner(i...); }
+    static constexpr bool is_always_unique() noexcept { return true; } static constexpr bool is_always_exhaustive() noexcept { return true; } static constexpr bool is_always_strided() noexcept { return true; }
+    static constexpr bool is_unique() noexcept { return true; } static constexpr bool is_exhaustive() noexcept { return true; } static constexpr bool is_strided() noexcept { return true; }
+    constexpr index_type stride(rank_type r) const noexcept { return inner.stride(r); }
+    template <class F> friend constexpr bool operator==(const mapping& a, const mapping<F>& b) noexcept { return a.inner == b.inner; }
+  };
+};
+// mdspan's own member types: taken from extents_type, whatever the mapping declares
+template <class V> std::string memberTypesMds() {
+  using E = typename V::extents_type; using I = typename E::index_type;
+  std::string s = "mtm=";
+  s += num(std::is_same_v<typename V::size_type, std::make_unsigned_t<I>>) + num(std::is_same_v<typename V::index_type, I>) + num(std::is_same_v<typename V::rank_type, size_t>);
+  s += num(std::is_same_v<decltype(std::declval<const V&>().size()), std::make_unsigned_t<I>>) + num(std::is_same_v<decltype(std::declval<const V&>().extent(0)), I>);
+  return s;
+}
 // the noexcept facts the specification states for mdspan itself, whatever the layout's own exception specifications
 template <class V> std::string noexceptsMds() {
   std::string s = "nem=";
